@@ -333,6 +333,11 @@ class Executor:
 
     def ev(self, node, st: State, spec=False):
         """evaluate an expression; spec=True allows the specification vocabulary"""
+        sf = self.c.get("self_fields")
+        if sf and not isinstance(node, (ast.Constant, ast.Name)):
+            text = ast.unparse(node)
+            if text in sf:
+                return st.env["§" + text]
         m = getattr(self, "ev_" + type(node).__name__, None)
         if m is None:
             raise OutOfSubset(f"expression {type(node).__name__}: {ast.unparse(node)[:60]}")
